@@ -107,8 +107,12 @@ def run(ctx):
     rng = ctx.rng
     # ------------------------------------------------------------ tree level: correspondence + tree oracle
     cases = [("10 - 1 - 1 - 1", "(expr (binop - (binop - (binop - (int i:10) (int i:1)) (int i:1)) (int i:1)))")]
+    import os
+    fast = os.environ.get("VERIF_C03_FAST") == "1"   # mutation testing only: skip the 3-operator exhaustive part
+    if fast:
+        ctx.notes.append("VERIF_C03_FAST=1: reduced case set (not a valid evidence run)")
     for shape in SHAPES:
-        for n in (1, 2, 3):
+        for n in ((1, 2) if fast else (1, 2, 3)):
             for ops in itertools.product(OPS, repeat=n):
                 cases.append(chain_case(shape, ops))
     n_exh = len(cases)
@@ -146,14 +150,20 @@ def run(ctx):
         if not A.same_outcome(r):
             ctx.disagree("parse_tokens", src, r["model"], impl)
     ctx.sample({"src": cases[0][0], "impl": res[0]["impl"], "model": res[0]["model"]})
-    ctx.sample({"src": cases[5000][0], "impl": res[5000]["impl"].get("items"), "expected": cases[5000][1]})
+    k = min(5000, len(cases) - 1)
+    ctx.sample({"src": cases[k][0], "impl": res[k]["impl"].get("items"), "expected": cases[k][1]})
     ctx.cov["tree_cases"] = len(cases)
     ctx.cov["exhaustive_cases"] = n_exh
 
     # ------------------------------------------------------------ value level (CLI, no hook, no model)
     chains = [(["10", "1", "1", "1"], ["-", "-", "-"])]
-    for _ in range(ctx.scale(500, 6000)):
+    for _ in range(60 if fast else ctx.scale(500, 6000)):
         chains.append(typed_chain(rng, rng.randint(2, 6)))
+
+    for _ in range(20 if fast else ctx.scale(150, 2000)):   # + - * only: also judged by Python's left fold
+        n = rng.randint(3, 6)
+        chains.append(([str(rng.randint(1, 40))] + [str(rng.randint(1, 9)) for _ in range(n)],
+                       [rng.choice(["+", "-", "*"]) for _ in range(n)]))
 
     def one(c):
         operands, ops = c
